@@ -80,6 +80,10 @@ func (swissquote) Generate(r *rand.Rand, o Opts) *Statement {
 				st.feature("fractional-quantity")
 			}
 			price := Cents(int64(100 + r.Intn(50000)))
+			if r.Intn(6) == 0 {
+				price = Cents(int64(1 + r.Intn(150))) // penny stock: the fee can exceed the gross amount
+				st.feature("penny-stock")
+			}
 			gross := Dec{price.V * qd.V, 2 + qd.S} // exact
 			for gross.S > 2 && gross.V%10 == 0 {
 				gross = Dec{gross.V / 10, gross.S - 1}
@@ -96,9 +100,12 @@ func (swissquote) Generate(r *rand.Rand, o Opts) *Statement {
 				note = fmt.Sprintf("%s Kauf %s %s net %s %s", day, qty, sym, net.Fixed(), cur)
 			} else {
 				net := gross.Sub(cost)
-				if net.V <= 0 {
+				if net.V == 0 {
 					cost = Cents(0)
 					net = gross
+				}
+				if net.V < 0 {
+					st.feature("sale-with-negative-net-amount")
 				}
 				blocks = append(blocks, []string{row(ts(day), order, "Verkauf", sym, name, is, qty, price, cost, net, cur)})
 				st.Txns = append(st.Txns, Txn{Date: day, Import: eff(cur, net, sym, qd.Neg()), Row: st.BookingRows, Note: "Verkauf"})
